@@ -1,5 +1,5 @@
 (* C08 — evaluation functions used by generated case files (correspondence with the engine's
-   authorization of `mint` on resources carrying random access rules). *)
+   authorization of real calls on resources / pools carrying random access rules). *)
 From Coq Require Import List ZArith NArith Bool.
 Import ListNotations.
 Require Import RV.Model.C08_Auth.
@@ -7,14 +7,15 @@ Open Scope N_scope.
 
 Inductive observed := OAuthorized | OUnauthorized | OOther.
 
-(* a case: the auth zone the engine checks from (as built for a method call from the manifest),
-   the role assignment of the callee (address, role table, owner rule, role list of the method),
-   and what the engine did *)
-Definition case := (azone * (N * list (N * rule) * rule * list N) * observed)%type.
+(* a case: the call chain, newest call first (actor of each caller, content of its auth zone at the
+   time of the call, receiver kind) — the auth zone of the checked call is BUILT by the model
+   (create_zone) —, the role assignment of the callee (address, role table, owner rule, role list
+   of the method), and what the engine did *)
+Definition case := (list call * (N * list (N * rule) * rule * list N) * observed)%type.
 
 Definition check (c : case) : bool :=
-  let '(a, (addr, roles, owner, keys), o) := c in
-  match verify_role_list a addr roles owner keys, o with
+  let '(l, (addr, roles, owner, keys), o) := c in
+  match verify_call l addr roles owner keys, o with
   | true, OAuthorized => true
   | false, OUnauthorized => true
   | _, _ => false
